@@ -21,9 +21,11 @@ import semcheck
 from gen_program import V, L, OP
 
 RULE = ('generated programs over numbers, strings, booleans (comparisons), lists, records, aggregation, combines, '
-        'functional and injectible predicates; 7 corruption operators (string in arithmetic, number unified with a '
+        'functional and injectible predicates; 10 corruption operators (string in arithmetic, number unified with a '
         'string literal, head column type differing between rules, mixed list, record field clash, missing field '
-        'of a closed record, predicate argument of the wrong type) x 3 orders of rules / conjuncts; non-trivial = '
+        'of a closed record - also after a valid access -, predicate argument of the wrong type, clash inside the '
+        'second combine, list element clash via signatures) x 3 orders of rules / conjuncts; random systems of scalar '
+        'constraints x 3 orders; non-trivial = '
         'program with a derived predicate of >= 2 columns; distinct by program text')
 ASSUMPTIONS = ('TypeCollector renderings for other engines are not part of the property',)
 
